@@ -95,7 +95,7 @@ Ints(ns) == [j \in 1..Len(ns) |-> I(ns[j])]
    rather than a CONSTRAINT, because TLC evaluates invariants on states it discards for a constraint *)
 Deeper == TLCGet("level") < MaxDepth
 AllInts(v) == \A j \in 1..Len(v) : Has(v[j], "i")
-Usable(v) == AllInts(v) /\ Len(v) <= 8 /\ \A j \in 1..Len(v) : AbsI(v[j].i) < 100000
+Usable(v) == AllInts(v) /\ Len(v) <= 6 /\ \A j \in 1..Len(v) : AbsI(v[j].i) < 1000
 NonNeg(v) == \A j \in 1..Len(v) : v[j].i >= 0 /\ v[j].i <= 3
 
 Init == acc \in UNION {[1..k -> {I(u) : u \in Universe}] : k \in 0..MaxLen}
